@@ -48,6 +48,40 @@ fn main() {
     }
     include!("flows_table.rs");
 
+    // ---- two-location flows (network links): one function per location
+    {
+        let mut flow = FlowBuilder::new();
+        let sender = flow.process::<h_hydro_flows::NSender>();
+        let receiver = flow.process::<h_hydro_flows::NReceiver>();
+        h_hydro_flows::n_o2o(&receiver, sender.embedded_input::<u32>("a"));
+        let deploy: hydro_lang::compile::deploy::DeployFlow<'_, EmbeddedDeploy> = flow
+            .with_process(&sender, "n_o2o_sender")
+            .with_process(&receiver, "n_o2o_receiver");
+        let ir = hydro_lang::compile::ir::serialize_dedup_shared(|| {
+            serde_json::to_string(deploy.ir()).expect("ir json")
+        });
+        irs.push(("n_o2o".to_owned(), ir));
+        let code = deploy.generate_embedded("h_hydro_flows");
+        std::fs::write(format!("{out_dir}/n_o2o.rs"), prettyplease::unparse(&code)).unwrap();
+        mods.push_str("#[allow(unused_imports, unused_qualifications, non_snake_case, clippy::all)]\npub mod n_o2o { include!(concat!(env!(\"OUT_DIR\"), \"/n_o2o.rs\")); }\n");
+    }
+    {
+        let mut flow = FlowBuilder::new();
+        let senders = flow.cluster::<h_hydro_flows::NSrc>();
+        let receiver = flow.process::<h_hydro_flows::NReceiver>();
+        h_hydro_flows::n_m2o(&receiver, senders.embedded_input::<u32>("a"));
+        let deploy: hydro_lang::compile::deploy::DeployFlow<'_, EmbeddedDeploy> = flow
+            .with_cluster(&senders, "n_m2o_sender")
+            .with_process(&receiver, "n_m2o_receiver");
+        let ir = hydro_lang::compile::ir::serialize_dedup_shared(|| {
+            serde_json::to_string(deploy.ir()).expect("ir json")
+        });
+        irs.push(("n_m2o".to_owned(), ir));
+        let code = deploy.generate_embedded("h_hydro_flows");
+        std::fs::write(format!("{out_dir}/n_m2o.rs"), prettyplease::unparse(&code)).unwrap();
+        mods.push_str("#[allow(unused_imports, unused_qualifications, non_snake_case, clippy::all)]\npub mod n_m2o { include!(concat!(env!(\"OUT_DIR\"), \"/n_m2o.rs\")); }\n");
+    }
+
     std::fs::write(format!("{out_dir}/mods.rs"), mods).unwrap();
     let mut tbl = String::from("pub static SYNTAX: &[(&str, &str)] = &[\n");
     for (n, s) in &syntax {
